@@ -3,7 +3,7 @@
 # is applied to a scratch copy of /repo (never to /repo itself); minisim is built against the copy and
 # the targeted check must report a violation in the quick budget.  The unchanged copy must pass.
 #
-#   tools/selftest.sh [--with-tests] [--cross] [--tier quick|thorough] [pattern]
+#   tools/selftest.sh [--with-tests] [--cross] [--tier quick|thorough] [--regex RE] [--no-baseline] [pattern]
 #
 # --cross additionally runs the checks of the OTHER properties against each change and prints a CROSS line when
 # one of them alarms (a check should only alarm when its own property is broken).
@@ -12,12 +12,14 @@
 # (i.e. the change is one the existing tests cannot see).
 set -u
 HERE="$(cd "$(dirname "${BASH_SOURCE[0]}")/.." && pwd)"
-WITH_TESTS=0; TIER=quick; PATTERN=""; CROSS=0
+WITH_TESTS=0; TIER=quick; PATTERN=""; CROSS=0; REGEX=""; BASELINE=1
 while [ $# -gt 0 ]; do
   case "$1" in
     --with-tests) WITH_TESTS=1 ;;
     --cross) CROSS=1 ;;
     --tier) TIER="$2"; shift ;;
+    --regex) REGEX="$2"; shift ;;
+    --no-baseline) BASELINE=0 ;;
     *) PATTERN="$1" ;;
   esac
   shift
@@ -36,6 +38,7 @@ run_check() { # prop -> exit code, output in $SCRATCH/out
 
 echo "== baseline (unchanged copy) =="
 for p in C13 C14 C15 C16; do
+  [ $BASELINE = 1 ] || continue
   [ -n "$(ls "$HERE/mutants/$p" 2>/dev/null)" ] || grep -qs "\"$p\"" "$HERE"/seeded/*/meta.json || continue
   if run_check "$p"; then echo "ok   baseline $p"; else echo "FAIL baseline $p (exit $?)"; tail -5 "$SCRATCH/out"; fail=$((fail+1)); fi
 done
@@ -50,6 +53,7 @@ done
 
 for f in $list; do
   case "$f" in *"$PATTERN"*) ;; *) continue ;; esac
+  if [ -n "$REGEX" ] && ! [[ "$f" =~ $REGEX ]]; then continue; fi
   if [[ "$f" == */seeded/* ]]; then
     dir="$(dirname "$f")"; name="seeded/$(basename "$dir")"
     props="$(jq -r '.property | if type=="array" then .[] else . end' "$dir/meta.json")"
@@ -104,6 +108,7 @@ cpass=0; cfail=0
 for f in "$HERE"/controls/*.diff; do
   [ -e "$f" ] || continue
   case "$f" in *"$PATTERN"*) ;; *) continue ;; esac
+  if [ -n "$REGEX" ] && ! [[ "$f" =~ $REGEX ]]; then continue; fi
   name="controls/$(basename "$f" .diff)"
   if ! (cd "$SCRATCH/repo" && patch -p1 --quiet < "$f" >/dev/null 2>&1); then
     echo "FAIL $name: patch does not apply"; cfail=$((cfail+1))
